@@ -4308,3 +4308,11 @@ B("SWP-C08-commit-shortcut-inverted", "C08", "C08:R-C08.14:batch::WriteBatch::co
   "        if self.is_empty() {\n            // NOTE: Even without items", "        if !self.is_empty() {\n            // NOTE: Even without items")
 E("EQ-C02-is-empty-through-the-vec", BATCH,
   "        self.len() == 0", "        self.data.is_empty()", props=["C02", "C08", "C03"])
+B("SWP-C14-bounce-returns-before-requeue", "C14", "C14:R-C14.10:worker_pool::worker_tick:a-bounced-compact-message-is-queued-again", WP,
+  """                ctx.sender.send(WorkerMessage::Compact(keyspace)).ok();
+                return Ok(false);""",
+  """                if ctx.sender.is_full() {
+                    return Ok(false);
+                }
+                ctx.sender.send(WorkerMessage::Compact(keyspace)).ok();
+                return Ok(false);""")
